@@ -36,8 +36,9 @@ BinOps == SelectSeq(Operators, LAMBDA o : o \notin {"=~", "!~"})
 Constructs == [i \in 1..Len(Functions) |-> FnC(Functions[i])] \o [i \in 1..Len(Aggregators) |-> AggC(Aggregators[i])]
               \o [i \in 1..Len(BinOps) |-> BinC(BinOps[i])] \o Others
 
-Positions == IF Q THEN <<"top", "fnarg", "aggop", "aggparam", "binl", "binr", "paren", "neg", "nested">>
-             ELSE <<"top", "fnarg", "aggop", "aggparam", "binl", "binr", "paren", "neg", "nested", "kparam", "clamparg", "subq", "pinned", "histo">>
+\* every argument position of every function the planner builds on a code path of its own is a position
+Positions == <<"top", "fnarg", "aggop", "aggparam", "binl", "binr", "paren", "neg", "nested", "kparam", "clamparg", "subq", "pinned", "histo",
+               "histoq", "tsarg", "scalararg", "clamp3">>
 \* text of construct c in position p, "" if the position does not accept the construct's type
 InPos(c, p) ==
   CASE p = "top" -> c.text
@@ -54,6 +55,10 @@ InPos(c, p) ==
     [] p = "clamparg" -> IF c.type = "vector" THEN "clamp_min(m, scalar(" \o c.text \o "))" ELSE IF c.type = "scalar" THEN "clamp_max(m, " \o c.text \o ")" ELSE ""
     [] p = "subq" -> IF c.type = "vector" THEN "max_over_time((" \o c.text \o ")[4s:2s])" ELSE ""
     [] p = "pinned" -> IF c.type = "vector" THEN "(" \o c.text \o ") + on (a) group_left (m @ 3)" ELSE ""
+    [] p = "histoq" -> IF c.type = "vector" THEN "histogram_quantile(scalar(" \o c.text \o "), m)" ELSE IF c.type = "scalar" THEN "histogram_quantile(" \o c.text \o ", m)" ELSE ""
+    [] p = "tsarg" -> IF c.type = "vector" THEN "timestamp(" \o c.text \o ")" ELSE ""
+    [] p = "scalararg" -> IF c.type = "vector" THEN "scalar(" \o c.text \o ") + m" ELSE ""
+    [] p = "clamp3" -> IF c.type = "vector" THEN "clamp(" \o c.text \o ", 1, scalar(" \o c.text \o "))" ELSE ""
     [] p = "histo" -> IF c.type = "vector" THEN "histogram_quantile(0.5, " \o c.text \o ")" ELSE ""
 
 Data == << Series(<< <<"__name__","m">>, <<"a","x">>, <<"b","1">>, <<"le","1">> >>, [i \in 1..12 |-> Smp(i - 1, "f", i)]),
